@@ -740,4 +740,96 @@ theorem parseStrCore_iff (be : Backend) (ver : Nat) (hver : VerOK ver) (val1 : L
     simp only [ha, hr]
     rw [if_neg hnn, Int.toNat_natCast, applyNohost_ok ver hver fl a p hq]
 
+/-! ### signed numerals -/
+
+/-- `int('-' + digits)` and `int('+' + digits)` -/
+theorem pyInt_signed_digits (t : List Char) (ht : ∀ c ∈ t, DecCh c) (hne : t ≠ []) :
+    Py.pyInt 10 ('-' :: t) = some (-((Nat.ofDigitChars 10 t 0 : Nat) : Int)) ∧
+    Py.pyInt 10 ('+' :: t) = some ((Nat.ofDigitChars 10 t 0 : Nat) : Int) := by
+  have hpref : (if (10 : Nat) = 2 then ['b', 'B'] else if (10 : Nat) = 8 then ['o', 'O']
+      else if (10 : Nat) = 16 then ['x', 'X'] else ([] : List Char)) = [] := by decide
+  have hdv := digitsVal_digits t ht 0 false (Or.inl hne)
+  have hstrip : ∀ sg : Char, Py.isWs sg = false → Py.stripWs (sg :: t) = sg :: t := by
+    intro sg hsg
+    unfold Py.stripWs
+    rw [List.dropWhile_cons, if_neg (by rw [hsg]; decide)]
+    have hrev : (sg :: t).reverse.dropWhile Py.isWs = (sg :: t).reverse := by
+      cases hr : (sg :: t).reverse with
+      | nil => rfl
+      | cons x xs =>
+        have hx : x ∈ sg :: t := by rw [← List.mem_reverse, hr]; simp
+        have : Py.isWs x = false := by
+          rcases List.mem_cons.mp hx with e | e
+          · rw [e]; exact hsg
+          · exact (ht x e).1
+        rw [List.dropWhile_cons, if_neg (by rw [this]; decide)]
+    rw [hrev, List.reverse_reverse]
+  have hany : ∀ sg : Char, ¬ (sg.toNat > 127) → (sg :: t).any (fun c => decide (c.toNat > 127)) = false := by
+    intro sg hsg
+    apply Bool.eq_false_iff.mpr
+    intro h
+    obtain ⟨c, hc, hgt⟩ := List.any_eq_true.mp h
+    rcases List.mem_cons.mp hc with e | e
+    · subst e; exact hsg (by simpa using hgt)
+    · exact (ht c e).2.2.2.2.2.1 (by simpa using hgt)
+  constructor
+  · unfold Py.pyInt
+    rw [hany '-' (by decide)]
+    simp only [Bool.false_eq_true, if_false]
+    rw [hstrip '-' (by decide)]
+    simp only [hpref, show ('-' == '+') = false by decide, show ('-' == '-') = true by decide, Bool.false_eq_true, if_false, if_true]
+    split
+    · rename_i heq
+      exfalso
+      split at heq
+      · simp only [List.contains_nil, Bool.false_eq_true, if_false] at heq; cases heq
+      · exact hne heq
+    · split
+      · rename_i v heq2
+        split at heq2
+        · simp only [List.contains_nil, Bool.false_eq_true, if_false] at heq2
+          rw [hdv] at heq2; cases heq2; rfl
+        · rw [hdv] at heq2; cases heq2; rfl
+      · rename_i heq2
+        exfalso
+        split at heq2
+        · simp only [List.contains_nil, Bool.false_eq_true, if_false] at heq2
+          rw [hdv] at heq2; cases heq2
+        · rw [hdv] at heq2; cases heq2
+  · unfold Py.pyInt
+    rw [hany '+' (by decide)]
+    simp only [Bool.false_eq_true, if_false]
+    rw [hstrip '+' (by decide)]
+    simp only [hpref, show ('+' == '+') = true by decide, if_true]
+    split
+    · rename_i heq
+      exfalso
+      split at heq
+      · simp only [List.contains_nil, Bool.false_eq_true, if_false] at heq; cases heq
+      · exact hne heq
+    · split
+      · rename_i v heq2
+        split at heq2
+        · simp only [List.contains_nil, Bool.false_eq_true, if_false] at heq2
+          rw [hdv] at heq2; cases heq2; rfl
+        · rw [hdv] at heq2; cases heq2; rfl
+      · rename_i heq2
+        exfalso
+        split at heq2
+        · simp only [List.contains_nil, Bool.false_eq_true, if_false] at heq2
+          rw [hdv] at heq2; cases heq2
+        · rw [hdv] at heq2; cases heq2
+
+/-- `int('-%d' % n) = -n` -/
+theorem pyInt_neg_dec (n : Nat) : Py.pyInt 10 ('-' :: dec n) = some (-(n : Int)) := by
+  rw [(pyInt_signed_digits (dec n) (dec_decCh n) (dec_ne_nil n)).1]
+  show some (-((Nat.ofDigitChars 10 (Nat.toDigits 10 n) 0 : Nat) : Int)) = _
+  rw [Nat.ofDigitChars_toDigits (by decide) (by decide)]
+
+/-- `int('+%d' % n) = n` -/
+theorem pyInt_plus_dec (n : Nat) : Py.pyInt 10 ('+' :: dec n) = some (n : Int) := by
+  rw [(pyInt_signed_digits (dec n) (dec_decCh n) (dec_ne_nil n)).2]
+  show some ((Nat.ofDigitChars 10 (Nat.toDigits 10 n) 0 : Nat) : Int) = _
+  rw [Nat.ofDigitChars_toDigits (by decide) (by decide)]
+
 end NV.C03L.Acc
